@@ -155,6 +155,8 @@ func checkC12(w *World, r *Report) {
 		}
 	})
 
+	checkResolvesThroughLoad(w, r, "R12.5", []string{"ImportNode", "FromImportNode"}, "the directive keeps whatever macros are bound under its names already instead of binding the macros of the library it names: a macro reached through this import is another macro than the same name reached through `import … as`")
+
 	// ---- R12.2
 	checkMacroBinding(w, r, binder, macroCtx, setVar, evalM)
 
